@@ -330,8 +330,10 @@ static int gal5_load(struct module_data *m, HIO_HANDLE *f, const int start)
 	ret |= libxmp_iff_register(handle, "PATT", get_patt_cnt);
 	ret |= libxmp_iff_register(handle, "INST", get_inst_cnt);
 
-	if (ret != 0)
+	if (ret != 0) {
+		libxmp_iff_release(handle);
 		return -1;
+	}
 
 	libxmp_iff_set_quirk(handle, IFF_LITTLE_ENDIAN);
 	libxmp_iff_set_quirk(handle, IFF_SKIP_EMBEDDED);
@@ -369,8 +371,10 @@ static int gal5_load(struct module_data *m, HIO_HANDLE *f, const int start)
 	ret = libxmp_iff_register(handle, "PATT", get_patt);
 	ret |= libxmp_iff_register(handle, "INST", get_inst);
 
-	if (ret != 0)
+	if (ret != 0) {
+		libxmp_iff_release(handle);
 		return -1;
+	}
 
 	libxmp_iff_set_quirk(handle, IFF_LITTLE_ENDIAN);
 	libxmp_iff_set_quirk(handle, IFF_SKIP_EMBEDDED);
